@@ -141,7 +141,7 @@ def structured_graph(rng, n):
 
 def dist_matrix(rng, n):
     """symmetric zero-diagonal integer matrix (real distances = entries / 4)"""
-    kind = rng.choice(["const", "line", "ring", "rand3", "rand8", "grid"])
+    kind = rng.choice(["const", "line", "ring", "rand3", "rand8", "grid", "asym"])
     D = np.zeros((n, n), dtype=np.int64)
     if kind == "const":
         D[:] = rng.choice([1, 4])
@@ -159,6 +159,11 @@ def dist_matrix(rng, n):
         for i in range(n):
             for j in range(i):
                 D[i, j] = D[j, i] = rng.randrange(1, top + 1)
+    elif kind == "asym":
+        # not a metric: exercises the index order inside the conditions (correspondence only)
+        for i in range(n):
+            for j in range(n):
+                D[i, j] = rng.randrange(1, 4)
     else:
         pts = [(rng.randrange(0, 3), rng.randrange(0, 3)) for _ in range(n)]
         for i in range(n):
@@ -217,7 +222,7 @@ def geo_oracle(ctx, mode, A0, A1, edges1, D, eps, level, replay, single):
         if len(removed) not in (0, 2) or len(added) != len(removed):
             bad("two-links", f"one rewiring removed {removed} and added {added}")
             return
-        if removed:
+        if removed and np.array_equal(D, D.T):
             lo = [Fraction(int(D[i, j]), 4) for i, j in removed]
             ln = [Fraction(int(D[i, j]), 4) for i, j in added]
             if not match_within(lo, ln, Fraction(eps, 4)):
@@ -414,6 +419,7 @@ def run(ctx):
     for _ in range(80 if quick else 800):
         for _try in range(12):
             n, A, D, eps, mode = geo_case("method")
+            D = np.maximum(D, D.T)
             if A.sum() == 0:
                 continue
             # screen with the compiled kernel itself: is any rewiring admissible?
@@ -798,6 +804,17 @@ def run(ctx):
             ctx.fail({"kind": "model", "generator": "WattsStrogatz", "invariant": "link-count"},
                      f"WattsStrogatz(N={Nw}, k={k}) gave {int(A.sum()) // 2} links / not simple",
                      {"N": Nw, "k": k, "A": A.tolist()})
+        mm = rng.randrange(1, 4)
+        NN = mm + 1 + rng.randrange(0, 8)
+        net = quiet(Network.Model, "BarabasiAlbert", n_nodes=NN, n_links_each=mm)
+        ctx.count("generator:Network.Model(BarabasiAlbert)")
+        ctx.case(("modelBA", NN, mm, net.adjacency.tobytes().hex()), NN > mm + 1)
+        if net.N != NN or net.n_links != mm * (NN - mm) or not simple_undirected(net.adjacency) or \
+                not np.array_equal(net.degree(), net.adjacency.sum(axis=1)):
+            ctx.fail({"kind": "model", "generator": "Model(BarabasiAlbert)", "invariant": "link-count"},
+                     f"Network.Model('BarabasiAlbert', n_nodes={NN}, n_links_each={mm}): N={net.N}, "
+                     f"n_links={net.n_links}, documented {mm * (NN - mm)}",
+                     {"n_nodes": NN, "n_links_each": mm, "A": net.adjacency.tolist()})
         mb = rng.randrange(1, 4)
         A = np.asarray(Network.BarabasiAlbert_igraph(n_nodes=N + 2, n_links_each=mb))
         ctx.count("generator:BarabasiAlbert_igraph")
@@ -807,7 +824,9 @@ def run(ctx):
         # Network.randomly_rewire (igraph rewire + set_edge_list)
         n = rng.randrange(4, 10)
         gk, G = structured_graph(rng, n)
-        if G.sum() > 0 and G[n - 1].sum() > 0:
+        if rng.random() < 0.3:
+            G[n - 1, :] = G[:, n - 1] = 0      # trailing isolated node
+        if G.sum() > 0:
             net = Network(adjacency=G, directed=False, silence_level=3)
             it = rng.choice([1, 3, 10, 50])
             net.randomly_rewire(it)
@@ -818,8 +837,10 @@ def run(ctx):
                     not np.array_equal(A1.sum(axis=1), G.sum(axis=1)) or \
                     net.n_links != int(G.sum()) // 2 or \
                     sorted(map(tuple, net.graph.get_edgelist())) != edge_list(A1):
-                ctx.fail({"kind": "rewire", "method": "randomly_rewire", "invariant": "degree"},
-                         "randomly_rewire changed the degree sequence / result not simple / object incoherent",
+                ctx.fail({"kind": "rewire", "method": "randomly_rewire", "invariant": "degree",
+                          "n_nodes_changed": A1.shape != G.shape},
+                         f"randomly_rewire: {G.shape[0]} nodes, degrees {G.sum(axis=1).tolist()} -> "
+                         f"{A1.shape[0]} nodes, degrees {A1.sum(axis=1).tolist()} / not simple / object incoherent",
                          {"A": G.tolist(), "iterations": it, "A_after": A1.tolist()})
         # distance-kernel model
         nn_ = rng.randrange(2, 9)
